@@ -17,7 +17,12 @@ pub broadcast axiom fn iter_seq_vec_ref<'a, T>(a: &'a Vec<T>)
 pub broadcast axiom fn iter_seq_array_ref<'a, T, const N: usize>(a: &'a [T; N])
     ensures #[trigger] iter_seq::<T, &'a [T; N]>(a) == a@;
 
+/// a Rust slice never has more than usize::MAX elements (vstd only learns this from an exec `.len()` call)
+pub broadcast axiom fn ax_slice_len_bound<T>(s: &[T])
+    ensures #[trigger] s@.len() <= usize::MAX;
+
 pub broadcast group group_iter_seq {
+    ax_slice_len_bound,
     iter_seq_array, iter_seq_slice, iter_seq_vec, iter_seq_vec_ref, iter_seq_array_ref, ax_arr_of,
 }
 
@@ -28,6 +33,9 @@ pub assume_specification<'a, T: Copy + 'a, A: Allocator, I: IntoIterator<Item = 
     ensures final(v)@ == old(v)@ + iter_seq::<T, I>(i);
 
 pub assume_specification<T: Clone>[<[T]>::to_vec](s: &[T]) -> (r: Vec<T>)
+    ensures r@ == s@;
+
+pub assume_specification<'a, T: Clone>[<Vec<T> as From<&'a [T]>>::from](s: &[T]) -> (r: Vec<T>)
     ensures r@ == s@;
 
 // ---- slice -> array conversion
